@@ -23,19 +23,23 @@ def loadOrSet1 (buf : List α) (t : TIdx) (N : Nat) : Option (List α) :=
 
 /-! ### eval_binary, BROADCASTED_2D -/
 
+/-- one step of the loop over `binary_2d_simd_enumerator`: a register (PACKED result) or one scalar -/
+def binary2dStep (N : Nat) (packF : List α → List α → List β) (f : α → α → β)
+    (lhs rhs : List α) (lr lc rr rc oc : Nat) (o : List β) (i : Nat) : Option (List β) :=
+  let step := binary2dAt N oc lr lc rr rc i
+  if step.1.tag = Tag.PACKED then do
+    let l ← loadOrSet1 lhs step.2.1 N
+    let r ← loadOrSet1 rhs step.2.2 N
+    storeu o step.1.off (packF l r)
+  else do
+    let x ← readAt lhs step.2.1.off
+    let y ← readAt rhs step.2.2.off
+    writeAt o step.1.off (f x y)
+
 /-- the loop over `binary_2d_simd_enumerator`; shapes `(lr,lc)`, `(rr,rc)`, output `(_, oc)` -/
 def simdBinary2d (N : Nat) (packF : List α → List α → List β) (f : α → α → β)
     (lhs rhs : List α) (lr lc rr rc oc : Nat) (out : List β) : Option (List β) :=
-  (List.range (binary2dSize N oc lr rr)).foldlM (fun o i =>
-    let (ot, lt, rt) := binary2dAt N oc lr lc rr rc i
-    if ot.tag = Tag.PACKED then do
-      let l ← loadOrSet1 lhs lt N
-      let r ← loadOrSet1 rhs rt N
-      storeu o ot.off (packF l r)
-    else do
-      let x ← readAt lhs lt.off
-      let y ← readAt rhs rt.off
-      writeAt o ot.off (f x y)) out
+  (List.range (binary2dSize N oc lr rr)).foldlM (binary2dStep N packF f lhs rhs lr lc rr rc oc) out
 
 /-- NumPy broadcasting of two 2-d arrays, row-major result: element (r,c) = f(a[r or 0, c or 0], b[…]) -/
 def scalarBinary2d (f : α → α → β) (a b : NDA α) (lr lc rr rc : Nat) : Option (List β) :=
